@@ -118,28 +118,125 @@ func interleaved(c sessCase) bool {
 func genConn(rt *rapid.T) connSpec {
 	return connSpec{
 		V6:       rapid.IntRange(0, 2).Draw(rt, "v6") == 0,
-		LIP:      rapid.IntRange(0, 1).Draw(rt, "lip"),
+		LOct:     rapid.IntRange(0, len(octets)-1).Draw(rt, "lip"),
 		LPort:    rapid.IntRange(0, len(tcpPorts)-1).Draw(rt, "lport"),
-		RPort:    rapid.OneOf(rapid.IntRange(0, 65535), rapid.SampledFrom([]int{0, 1, 1023, 32768, 65535})).Draw(rt, "rport"),
+		ROct:     rapid.IntRange(0, len(octets)-1).Draw(rt, "rip"),
+		RPort:    rapid.OneOf(rapid.IntRange(0, 65535), rapid.SampledFrom([]int{0, 1, 2, 4, 22, 40, 400, 4000, 443, 1023, 32768, 6553, 65535})).Draw(rt, "rport"),
+		Mapped:   rapid.IntRange(0, 3).Draw(rt, "mapped") == 0,
 		ReadBuf:  rapid.SampledFrom([]int{700, 700, 64, 7, 4096, 65536, 1}).Draw(rt, "readbuf"),
 		DelayMs:  rapid.SampledFrom([]int{0, 0, 0, 0, 1, 3}).Draw(rt, "delay"),
 		Greeting: rapid.SampledFrom([]int{0, 0, 0, 5, 300}).Draw(rt, "greeting"),
+		Reuse:    rapid.Bool().Draw(rt, "reuse"),
 		SameAs:   -1,
 	}
+}
+
+// portPairs: service ports q = p with the decimal digit d appended.
+func portPairs(d int) [][2]int {
+	var out [][2]int
+	for _, p := range tcpPorts {
+		if portIndex(p*10+d) >= 0 {
+			out = append(out, [2]int{p, p*10 + d})
+		}
+	}
+	return out
+}
+
+// relations between the address pairs of two connections of one session. Every relation
+// yields two DIFFERENT (local, remote) pairs, i.e. two connections that must not
+// influence each other, whose textual forms are as confusable as possible.
+var relations = []string{
+	"same-remote-lport", // same remote, same local IP, local ports p and p with a digit appended
+	"same-remote-lip",   // same remote, same local port, local IPs o and o with a digit in front
+	"same-local-rport",  // same local, same remote IP, remote ports p and p with a digit appended
+	"same-local-rip",    // same local, same remote port, remote IPs o and o with a digit in front
+	"swapped",           // local of one is remote of the other and vice versa
+	"concat-lr",         // local.String()+remote.String() is the same string for both
+	"concat-rl",         // remote.String()+local.String() is the same string for both
+}
+
+// relate derives a connection from base (which it may adjust) under relation rel; pick
+// selects among the instances of the relation. ok is false when base cannot take part.
+func relate(base *connSpec, rel string, pick int) (connSpec, bool) {
+	d := *base
+	d.SameAs = -1
+	d.Rel = rel
+	sh := shifts[mod(pick, len(shifts))]
+	switch rel {
+	case "same-remote-lport":
+		var all [][2]int
+		for dg := 0; dg <= 9; dg++ {
+			all = append(all, portPairs(dg)...)
+		}
+		pp := all[mod(pick, len(all))]
+		base.LPort, d.LPort = portIndex(pp[0]), portIndex(pp[1])
+	case "same-remote-lip":
+		base.LOct, d.LOct = octIndex(sh.lo), octIndex(sh.hi)
+	case "same-local-rport":
+		rp := []int{4, 40, 400, 4000, 6553, 2, 22, 1}[mod(pick, 8)]
+		base.RPort, d.RPort = rp, rp*10+mod(pick/8, 6)
+	case "same-local-rip":
+		base.ROct, d.ROct = octIndex(sh.lo), octIndex(sh.hi)
+	case "swapped":
+		j := mod(pick, len(tcpPorts))
+		base.RPort = tcpPorts[j]
+		d.LOct, d.LPort, d.ROct, d.RPort = base.ROct, j, base.LOct, tcpPorts[mod(base.LPort, len(tcpPorts))]
+	case "concat-lr":
+		pps := portPairs(sh.d)
+		if len(pps) == 0 {
+			return d, false
+		}
+		pp := pps[mod(pick/len(shifts), len(pps))]
+		base.V6, d.V6 = false, false
+		base.LPort, d.LPort = portIndex(pp[0]), portIndex(pp[1])
+		base.ROct, d.ROct = octIndex(sh.hi), octIndex(sh.lo)
+	case "concat-rl":
+		rp := []int{4, 40, 400, 4000, 2, 22}[mod(pick/len(shifts), 6)]
+		base.V6, d.V6 = false, false
+		base.RPort, d.RPort = rp, rp*10+sh.d
+		base.LOct, d.LOct = octIndex(sh.hi), octIndex(sh.lo)
+	default:
+		return d, false
+	}
+	base.Rel = rel
+	return d, true
 }
 
 func genSession(rt *rapid.T, maxSteps int) sessCase {
 	var c sessCase
 	k := rapid.IntRange(1, 4).Draw(rt, "nconns")
 	for i := 0; i < k; i++ {
-		c.Conns = append(c.Conns, genConn(rt))
+		cs := genConn(rt)
+		if i > 0 && rapid.IntRange(0, 9).Draw(rt, "related") < 6 {
+			// addresses that are easily confused with those of an earlier connection
+			var free []int
+			for j := 0; j < i; j++ {
+				if c.Conns[j].Rel == "" {
+					free = append(free, j)
+				}
+			}
+			if len(free) > 0 {
+				j := free[rapid.IntRange(0, len(free)-1).Draw(rt, "base")]
+				rel := rapid.SampledFrom(append([]string{"concat-lr", "concat-rl"}, relations...)).Draw(rt, "rel")
+				if d, ok := relate(&c.Conns[j], rel, rapid.IntRange(0, 999).Draw(rt, "pick")); ok {
+					d.Mapped, d.ReadBuf, d.DelayMs, d.Greeting, d.Reuse = cs.Mapped, cs.ReadBuf, cs.DelayMs, cs.Greeting, cs.Reuse
+					cs = d
+				}
+			}
+		}
+		c.Conns = append(c.Conns, cs)
 	}
 	if rapid.IntRange(0, 5).Draw(rt, "dup") == 0 {
 		// one more announcement that re-uses the addresses of an earlier connection
+		// (possibly in the other wire form of the same IPv4 addresses)
 		j := rapid.IntRange(0, k-1).Draw(rt, "dupof")
 		d := c.Conns[j]
 		d.SameAs = j
 		d.Greeting = 0
+		d.Rel = ""
+		if rapid.Bool().Draw(rt, "dupform") {
+			d.Mapped = !d.Mapped
+		}
 		c.Conns = append(c.Conns, d)
 	}
 	n := len(c.Conns)
@@ -209,6 +306,7 @@ func genSession(rt *rapid.T, maxSteps int) sessCase {
 				LPort: rapid.IntRange(0, len(udpPorts)-1).Draw(rt, "lport"),
 				RPort: rapid.IntRange(0, 65535).Draw(rt, "rport"),
 				N:     rapid.OneOf(rapid.IntRange(0, 1500), rapid.IntRange(0, 4000)).Draw(rt, "n"),
+				Reuse: rapid.Bool().Draw(rt, "reuse"),
 			}
 			for usedUDP[s.RPort] {
 				s.RPort = (s.RPort + 1) % 65536
@@ -254,7 +352,13 @@ func sessLabel(c sessCase) string {
 	if c.Abort {
 		end = "abort"
 	}
-	return fmt.Sprintf("session/ids=%d%s/seg=%s/%s", ids, dup, c.Seg, end)
+	rel := ""
+	for _, cs := range c.Conns {
+		if cs.Rel != "" {
+			rel = "/related"
+		}
+	}
+	return fmt.Sprintf("session/ids=%d%s%s/seg=%s/%s", ids, dup, rel, c.Seg, end)
 }
 
 func opLabels(r *vlib.Run, c sessCase) {
@@ -263,6 +367,16 @@ func opLabels(r *vlib.Run, c sessCase) {
 		if !seen[s.Op] {
 			seen[s.Op] = true
 			r.Label("op/"+s.Op, 1)
+		}
+		if s.Op == "swrite" && s.C >= 0 && s.C < len(c.Conns) && c.Conns[s.C].Reuse && !seen["reuse"] {
+			seen["reuse"] = true
+			r.Label("op/swrite-reused-buffer", 1)
+		}
+	}
+	for _, cs := range c.Conns {
+		if cs.Rel != "" && !seen["rel/"+cs.Rel] {
+			seen["rel/"+cs.Rel] = true
+			r.Label("rel/"+cs.Rel, 1)
 		}
 	}
 }
@@ -282,6 +396,108 @@ func replaySession(t *testing.T, r *vlib.Run, name string) bool {
 }
 
 const sessRule = "session: real agent listener behind server.Run on loopback, scripted agent over libdisco Noise_NK; 1..4 connection ids (+ optionally one re-used/duplicate id), IPv4/IPv6, remote ports 0..65535, <=20 data messages of 0..4000 bytes per connection, eof, service-side writes (0..60000 bytes, greeting at accept), UDP relays with 0..2 replies, unknown ids (swapped / neighbouring / never announced / after eof), ping, mid-session sync points, final agent disconnect; record segmentation: as the real agent (type|size|body), one record per frame, arbitrary chunk plans; interleaving drawn by rapid; oracle = per-connection byte queue each way; non-trivial = two connections each carry data while both are open"
+
+// identCase: two connections whose address pairs stand in one of the confusable
+// relations, played with a fixed interleaved script.
+type identCase struct {
+	Rel    string `json:"rel"`
+	Pick   int    `json:"pick"`
+	V6     bool   `json:"v6"`
+	MapA   bool   `json:"mapped_a"`
+	MapB   bool   `json:"mapped_b"`
+	BFirst bool   `json:"b_first"`
+	Seg    string `json:"seg"`
+}
+
+func (ic identCase) session() (sessCase, bool) {
+	a := connSpec{V6: ic.V6, LOct: 0, ROct: 3, LPort: 0, RPort: 4000, Mapped: ic.MapA, ReadBuf: 700, SameAs: -1, Reuse: true}
+	b, ok := relate(&a, ic.Rel, ic.Pick)
+	if !ok {
+		return sessCase{}, false
+	}
+	b.Mapped, b.Greeting = ic.MapB, 4
+	c := sessCase{Seg: ic.Seg, Conns: []connSpec{a, b}}
+	x, y := 0, 1
+	if ic.BFirst {
+		x, y = 1, 0
+	}
+	st := func(op string, conn, n int) step { return step{Op: op, C: conn, N: n} }
+	c.Steps = []step{
+		st("hello", x, 0), st("hello", y, 0),
+		st("data", x, 5), st("data", y, 7), st("swrite", y, 31), st("swrite", y, 900), st("swrite", y, 2), st("data", x, 600), st("swrite", x, 17), st("data", y, 1),
+		st("sync", -1, 0),
+		st("eof", x, 0), // must end x and only x
+		st("data", y, 40), st("swrite", y, 12),
+		st("sync", -1, 0), // y is still served
+		st("data", x, 9),  // x is gone: nobody may see this
+		st("data", y, 3),
+		st("eof", y, 0),
+	}
+	return c, true
+}
+
+// TestSessionIdentity enumerates the instances of the address relations.
+func TestSessionIdentity(t *testing.T) {
+	r := vlib.Open(prop)
+	if sessionViolated.Load() && !vlib.Replaying() {
+		t.Skip("a session violation was already reported by this process")
+	}
+	var ic identCase
+	if vlib.ReplayCase("TestSessionIdentity", &ic) {
+		c, ok := ic.session()
+		if !ok {
+			t.Fatalf("infra: replay names an impossible relation instance")
+		}
+		if err := checkSession(r, c); err != nil {
+			if strings.HasPrefix(err.Error(), "infra:") {
+				t.Fatalf("%v", err)
+			}
+			r.Violation(t, "TestSessionIdentity", ic, err.Error())
+		}
+		return
+	}
+	if vlib.Replaying() {
+		return
+	}
+	r.Rule("identity: two simultaneously open connections whose (local, remote) pairs are confusable - same remote with local ports / local IPs that are decimal prefixes of each other (2/22/220, 10/110/210), same local with such remote ports / IPs, swapped roles, pairs whose concatenated textual forms coincide in either order, IPv4 in 4-byte and IPv4-mapped form - every instance x wire forms x opening order x 2 segmentations, fixed interleaved script with data, service writes from a reused buffer, eof of one, further traffic on the other; distinct by construction, all non-trivial")
+	si, sn := r.Shard()
+	var n int64
+	idx := 0
+	for _, rel := range relations {
+		picks := 48
+		for pick := 0; pick < picks; pick++ {
+			for form := 0; form < 4; form++ {
+				ic := identCase{Rel: rel, Pick: pick, MapA: form&1 == 1, MapB: form&2 == 2, V6: form == 3 && rel != "concat-lr" && rel != "concat-rl"}
+				if ic.V6 {
+					ic.MapA, ic.MapB = false, false
+				} else if form == 3 {
+					continue
+				}
+				idx++
+				if idx%sn != si {
+					continue
+				}
+				ic.BFirst = idx/sn%2 == 1
+				ic.Seg = []string{"frame3", "frame1"}[idx/sn/2%2]
+				c, ok := ic.session()
+				if !ok {
+					continue
+				}
+				n++
+				if err := checkSession(r, c); err != nil {
+					r.Bulk("identity", n, n)
+					if strings.HasPrefix(err.Error(), "infra:") {
+						t.Fatalf("%v", err)
+					}
+					r.Violation(t, "TestSessionIdentity", ic, err.Error())
+					return
+				}
+			}
+		}
+	}
+	r.Bulk("identity", n, n)
+	r.Sample("identity", identCase{Rel: "concat-lr", Pick: 1, Seg: "frame3"})
+}
 
 // TestSessionModel: rapid-drawn sessions against the byte-queue model.
 func TestSessionModel(t *testing.T) {
@@ -331,7 +547,7 @@ func burstCase(rounds int, sizes []int, readBuf int, pair bool, endByDisconnect 
 	for rd := 0; rd < rounds; rd++ {
 		base := len(c.Conns)
 		for j := 0; j < per; j++ {
-			c.Conns = append(c.Conns, connSpec{V6: (rd+j)%3 == 0, LPort: (rd + j) % len(tcpPorts), RPort: 1000 + rd*2 + j, ReadBuf: readBuf, SameAs: -1})
+			c.Conns = append(c.Conns, connSpec{V6: (rd+j)%3 == 0, LOct: rd % len(octets), ROct: (rd + 1) % len(octets), LPort: (rd + j) % len(tcpPorts), RPort: 1000 + rd*2 + j, ReadBuf: readBuf, SameAs: -1})
 			c.Steps = append(c.Steps, step{Op: "hello", C: base + j})
 		}
 		c.Steps = append(c.Steps, step{Op: "sync", C: -1})
@@ -450,7 +666,7 @@ type mergeCase struct {
 func (m mergeCase) session() sessCase {
 	c := sessCase{Seg: m.Seg}
 	for i := range m.Scripts {
-		c.Conns = append(c.Conns, connSpec{V6: i == 1, LPort: i, RPort: 40000 + i, ReadBuf: 700, SameAs: -1, Greeting: 3 * (i % 2)})
+		c.Conns = append(c.Conns, connSpec{V6: i == 1, LOct: i, ROct: i + 1, LPort: i, RPort: 40000 + i, ReadBuf: 700, SameAs: -1, Greeting: 3 * (i % 2), Reuse: i%2 == 1})
 	}
 	pos := make([]int, len(m.Scripts))
 	for _, i := range m.Order {
